@@ -1,0 +1,7 @@
+//go:build verif
+
+package pathext
+
+//@ func IsRoot
+//@   property C17 also C13 C02 C12 C16 C01
+//@   ensures [root-spellings] !trim ==> (result <==> (path == "" || path == "." || path == "/" || path == "./"))
